@@ -12,6 +12,11 @@ import (
 	"reflect"
 
 	z "github.com/Oudwins/zog"
+	"github.com/Oudwins/zog/conf"
+	"github.com/Oudwins/zog/i18n"
+	"github.com/Oudwins/zog/i18n/en"
+	"github.com/Oudwins/zog/i18n/es"
+	"github.com/Oudwins/zog/zconst"
 	"zogverif/mc"
 	"zogverif/zh"
 )
@@ -48,19 +53,30 @@ func c12Scenario(a *Alpha, ns NamedSkel, focus []string, elems int) mc.Scenario 
 				return &mc.Outcome{Sig: "redundant"}
 			}
 		}
-		rec := &Recorder{CtxKeys: []string{"k1", "k2", "k3"}}
+		rec := &Recorder{CtxKeys: []string{"k1", "k2", "k3", "lang"}}
 		schema := BuildZog(c.Root, rec)
 		var orders [][]int
 		installOrderRecorder(x, zh.OrderFree, &orders)
 		opts := []z.ExecOption{z.WithCtxValue("k1", "v1"), z.WithCtxValue("k2", 2)}
-		ctxStr := "k1=v1,k2=2,k3=<nil>"
+		ctxStr := "k1=v1,k2=2,k3=<nil>,lang=<nil>"
 		if len(focus) <= 1 {
-			switch x.Choose(4, "ctxValues") {
+			cv := x.Choose(6, "ctxValues")
+			switch cv {
+			case 4, 5:
+				// i18n installed; the call names a language that is not installed (4) or none (5): messages fall back to the
+				// default language, but what callbacks read from the context stays exactly what the call passed
+				saved := conf.IssueFormatter
+				i18n.SetLanguagesErrsMap(map[string]zconst.LangMap{"en": en.Map, "es": es.Map}, "en")
+				defer func() { conf.IssueFormatter = saved }()
+				if cv == 4 {
+					opts = append(opts, z.WithCtxValue("lang", "fr"))
+					ctxStr = "k1=v1,k2=2,k3=<nil>,lang=fr"
+				}
 			case 1:
 				// an earlier call passes values; the call under test passes none and must see none
 				var tmp string
 				z.String().Parse("prime", &tmp, z.WithCtxValue("k1", "stale"), z.WithCtxValue("k3", "stale3"))
-				opts, ctxStr = nil, "k1=<nil>,k2=<nil>,k3=<nil>"
+				opts, ctxStr = nil, "k1=<nil>,k2=<nil>,k3=<nil>,lang=<nil>"
 			case 2:
 				// defaults first, then the caller's override of the FIRST key: Get returns exactly the values passed, the later one
 				opts = []z.ExecOption{z.WithCtxValue("k1", "default"), z.WithCtxValue("k2", 2), z.WithCtxValue("k1", "v1")}
@@ -176,7 +192,7 @@ func c12Class(w, g string) string {
 func init() {
 	Register(&Prop{
 		ID:    "C12",
-		Rule:  "one execution = one core case where every node carries recording tests and PostTransforms; ≤k focus units range over configuration {plain, required, catch, default, two tests} × PostTransform configuration {one, none, two, first errors, second errors, first returns *ZogIssue} × input {valid, missing, failing, uncoercible}, all field visit orders, both modes, with two WithCtxValue keys / with none after an earlier call that passed some / with a key passed twice in one call (the later value counts); the invocation log (callback, argument value, pointer-ness, ctx.Get values, order, count), pointer identity with destination nodes and the issues are compared with the reference model; non-trivial = deviating case; distinct = distinct (skeleton, mode, expected log). plus " + layoutRule,
+		Rule:  "one execution = one core case where every node carries recording tests and PostTransforms; ≤k focus units range over configuration {plain, required, catch, default, two tests} × PostTransform configuration {one, none, two, first errors, second errors, first returns *ZogIssue} × input {valid, missing, failing, uncoercible}, all field visit orders, both modes, with two WithCtxValue keys / with none after an earlier call that passed some / with a key passed twice in one call (the later value counts) / with i18n installed and a language that is not installed, or none, named by the call; the invocation log (callback, argument value, pointer-ness, ctx.Get values, order, count), pointer identity with destination nodes and the issues are compared with the reference model; non-trivial = deviating case; distinct = distinct (skeleton, mode, expected log). plus " + layoutRule,
 		Floor: 50,
 		Bound: func(tier string) string {
 			k, e := coreK(tier)
